@@ -91,6 +91,7 @@ theorem step_agree (s : State) (e : Event) (h : Inv s) (hl : EventLegal s e) : A
   | finish id => exact Agree.of_quiet (q_finish s id) (seq_finish s id) ha
   | autojoin => exact Agree.of_quiet (q_autoJoinStale s) (seq_autoJoinStale s) ha
   | fire ch ok => exact Agree.of_quiet (q_gateFire s ch ok) (seq_gateFire s ch ok) ha
+  | retry ch ok => exact Agree.of_quiet (q_retryOpen s ch ok) (seq_retryOpen s ch ok) ha
   | settle r => exact Agree.of_quiet (q_settle s r) (seq_settle s r) ha
   | «continue» ex => exact Agree.of_quiet (q_continueGame s ex) (seq_continueGame s ex) ha
 
